@@ -33,6 +33,9 @@ var c13Decls = []c13Decl{
 	{"vararg-only-function", "", "function gv(...) end", "gv", "gv(1)", false, []string{"function", "gv", "(", "...", ")"}, false},
 	{"local-function-with-vararg", "", "local function lv(p, ...) end", "lv", "lv(1)", true, []string{"function", "lv", "(", "p", "...", ")"}, false},
 	{"member-vararg-function", "t = {}\n", "function t.mv(...) end", "mv", "t.mv(1)", false, []string{"function", "mv", "(", "...", ")"}, false},
+	// the value is another, commented, variable: the declaration's own comment must win
+	{"local-alias-of-a-commented-local", "local base = 10 -- BASEDOC\n", "local v = base", "v", "print(v)", true, []string{"v"}, false},
+	{"global-alias-of-a-commented-local", "local base = 10 -- BASEDOC\n", "gl = base", "gl", "print(gl)", false, []string{"gl"}, false},
 }
 
 var c13Placements = []string{"none", "trailing", "above-1", "above-2", "above-triple-dash", "above-separated-by-blank", "trailing-multi-name", "above-1-directly-below-a-trailing-comment"}
@@ -106,6 +109,9 @@ func c13Build(d c13Decl, place string, T string) (c13Case, bool) {
 	}
 	if strings.Contains(T, "[") {
 		c.judgeDoc = false
+	}
+	if strings.Contains(d.name, "alias-of-a-commented") && c.want == nil {
+		c.judgeDoc = false // without a comment of its own the alias may show the comment of what it names
 	}
 	c.declLine = len(lines)
 	c.declCol = strings.Index(decl, d.ident)
@@ -304,7 +310,7 @@ func init() {
 	core.Register(&core.Check{
 		ID:        "C13",
 		Technique: "bounded-exhaustive enumeration (declaration forms x comment placements x all comment strings up to a length over an 8-symbol alphabet of ASCII, 2-, 3- and 4-byte characters) on the real server against the documented attachment rule",
-		Rule: "10 declaration forms (functions with a vararg parameter list included) x 7 comment placements (none, trailing, one line above, two-line block, --- line, block separated by a blank line, trailing on a multi-name local) x every comment text of <=2 (quick) / <=3 (thorough) symbols over {a, space, é, я, 中, 😀, -, *}; hover at the declaration and at a use. " +
+		Rule: "12 declaration forms (functions with a vararg parameter list, aliases of a commented variable included) x 7 comment placements (none, trailing, one line above, two-line block, --- line, block separated by a blank line, trailing on a multi-name local) x every comment text of <=2 (quick) / <=3 (thorough) symbols over {a, space, é, я, 中, 😀, -, *}; hover at the declaration and at a use. " +
 			"The label must contain the identifier and what the declaration says (local marker, literal, parameter names in order); the documentation must be the attached comment (trailing, else block directly above; never a block separated by a blank line), byte-identical after the clean-up of leading/trailing dashes, stars and blanks. " +
 			"states = hovers judged; non-trivial = cases whose comment contains non-ASCII characters",
 		Assumptions: []string{"comments that are empty after clean-up, that start with an extra dash, or contain '[' are not judged for documentation", "documentation lines are compared after trimming blanks, dashes and stars at both ends"},
